@@ -161,9 +161,9 @@ macro_rules! impl_send {
     };
 }
 
-type SrvW = h3::server::RequestStream<SimBidi, Bytes>;
-type SrvS = h3::server::RequestStream<SimSend, Bytes>;
-type SrvR = h3::server::RequestStream<SimRecv, Bytes>;
+pub type SrvW = h3::server::RequestStream<SimBidi, Bytes>;
+pub type SrvS = h3::server::RequestStream<SimSend, Bytes>;
+pub type SrvR = h3::server::RequestStream<SimRecv, Bytes>;
 type CliW = h3::client::RequestStream<SimBidi, Bytes>;
 type CliS = h3::client::RequestStream<SimSend, Bytes>;
 type CliR = h3::client::RequestStream<SimRecv, Bytes>;
@@ -944,7 +944,7 @@ pub fn run_one(scn: &Value) -> Vec<Value> {
     let mut meta = serde_json::Map::new();
     if let Some(o) = scn.as_object() {
         for (k, v) in o.iter() {
-            if !["steps", "handlers", "handlers_by_sid", "default_handler", "cfg", "id", "role"].contains(&k.as_str()) {
+            if !["steps", "handlers", "handlers_by_sid", "default_handler", "wt_prog", "cfg", "id", "role"].contains(&k.as_str()) {
                 meta.insert(k.clone(), v.clone());
             }
         }
@@ -980,7 +980,11 @@ pub fn run_one(scn: &Value) -> Vec<Value> {
         });
         let auto = c["auto_accept"].as_bool().unwrap_or(true);
         let by_sid = scn["handlers_by_sid"].as_array().cloned().unwrap_or_default();
-        let fut = server_task(tc.clone(), n, Cfg::from(c), w.srv_cmds.clone(), handlers, default_handler, auto, by_sid);
+        let fut = if let Some(wp) = scn["wt_prog"].as_array() {
+            crate::wt::wt_server_task(tc.clone(), n, Cfg::from(c), wp.clone(), default_handler.clone())
+        } else {
+            server_task(tc.clone(), n, Cfg::from(c), w.srv_cmds.clone(), handlers, default_handler, auto, by_sid)
+        };
         w.exec.spawn("srv", tc.status.clone(), fut);
     }
     if role == "client" || role == "pair" {
